@@ -5,9 +5,9 @@ export GOPROXY := off
 export GOSUMDB := off
 export GOTOOLCHAIN := local
 
-.PHONY: setup coq ocaml harness clean
+.PHONY: setup coq ocaml harness harness2 legacygen race clean
 
-setup: coq ocaml harness
+setup: coq ocaml harness harness2 legacygen race
 
 coq:
 	cd coq && coq_makefile -f _CoqProject -o Makefile.coq >/dev/null && timeout 1800 $(MAKE) -f Makefile.coq -j16
@@ -19,6 +19,15 @@ ocaml: coq
 
 harness:
 	mkdir -p build && cd harness && cp /repo/go.sum . && go build -tags verif -o ../build/harness .
+
+harness2:
+	mkdir -p build && cd harness2 && ./prepare.sh && go build -tags verif -o ../build/harness2 . 2> >(grep -v 'sqlite3\|warning\|return pNew\|Select standin\|declared here\|\^\||' >&2)
+
+legacygen:
+	mkdir -p build && cd legacygen && ./prepare.sh >/dev/null
+
+race:
+	cd harness && cp /repo/go.sum . && go build -race -tags verif -o ../build/harness-race .
 
 clean:
 	rm -rf build; cd coq && rm -f *.vo *.vok *.vos *.glob .*.aux Makefile.coq Makefile.coq.conf .Makefile.coq.d
